@@ -131,14 +131,21 @@ func (r *FirstLastReader) Read(ctx *ReadContext, copied bool, ioPriority int) er
 			// query time range:   --------------
 			// segment time range:     ---------------
 			// If there is no null value, the first row of data is the result
-			tm = r.cm.minTime()
+			tm = minMaxSeg.minTime()
 			rowIndex = 0
+			if !ctx.Ascending {
+				// a descending read decodes the segment latest row first
+				rowIndex = r.dataCol.Len - 1
+			}
 		} else if !r.first && r.dataCol.NilCount == 0 && minMaxSeg.maxTime() <= ctx.tr.Max {
 			// query time range:        --------------
 			// segment time range: ---------------
 			// If there is no null value, the last row of data is the result
-			tm = r.cm.maxTime()
+			tm = minMaxSeg.maxTime()
 			rowIndex = r.dataCol.Len - 1
+			if !ctx.Ascending {
+				rowIndex = 0
+			}
 		} else {
 			if err := r.readTimeColVal(ctx, &tmMeta.entries[r.segIndex], copied, ioPriority); err != nil {
 				return err
@@ -235,7 +242,9 @@ func (r *FirstLastReader) after(val interface{}, tm int64, rowIndex int, ctx *Re
 }
 
 func (r *FirstLastReader) readRowIndex(ctx *ReadContext, timeCol, dataCol *record.ColVal) int {
-	if r.first {
+	// a descending read decodes the segment latest row first: the chronologically first
+	// value is then the last one by position
+	if r.first == ctx.Ascending {
 		return readFirstRowIndex(timeCol, dataCol, ctx.tr, ctx.Ascending)
 	}
 	return readLastRowIndex(timeCol, dataCol, ctx.tr, ctx.Ascending)
